@@ -157,3 +157,11 @@ def check_set_view(view, devname, t):
     for (ct, ca, ctext), (n, e) in zip(children, en):
         probs += check_value(t["kind"], n, ctext, dict(ca), e)
     return probs
+
+
+def blob_equiv(client_val, driver_val):
+    """client view of a BLOB element vs the driver's value.  An unset driver BLOB is published as an
+    empty oneBLOB without format, which a client cannot tell from 'no value'."""
+    if driver_val is None:
+        return client_val is None or client_val == (b"", "") or client_val == (b"", None)
+    return client_val == driver_val
